@@ -1,8 +1,40 @@
 // C15 — the unchecked byte-to-String conversions only ever see ASCII (anchored in src/biguint/convert.rs)
-#![allow(unused_imports, dead_code)]
+#![allow(unused_imports, dead_code, static_mut_refs)]
 use super::*;
 use crate::biguint::verif_common as vc;
 use alloc::{vec, vec::Vec};
+
+// the ASCII mapping itself, for EVERY radix 2..=36 and every digit value below the radix, with the digit production under contract
+// (to_radix_le -> three arbitrary digits < radix): every output byte is in [0-9a-z] and maps back to its digit
+fn to_radix_le_model(_u: &BigUint, radix: u32) -> Vec<u8> {
+    let d: [u8; 3] = kani::any();
+    kani::assume((d[0] as u32) < radix && (d[1] as u32) < radix && (d[2] as u32) < radix);
+    unsafe { GH_D = d; }
+    d.to_vec()
+}
+static mut GH_D: [u8; 3] = [0; 3];
+#[kani::proof]
+#[kani::unwind(12)]
+#[kani::stub(to_radix_le, to_radix_le_model)]
+#[kani::stub(crate::biguint::verif_common::symbolic, crate::biguint::verif_common::yes)]
+fn c15_q_ascii_mapping_all_radices() {
+    let radix: u32 = kani::any();
+    kani::assume(radix >= 2 && radix <= 36);
+    let x = vc::mk_from(&[5]);
+    if !vc::symbolic() {
+        return;
+    }
+    let out = to_str_radix_reversed(&x, radix);
+    kani::assert(out.len() == 3, "VERIF to_str_radix_reversed changed the number of digits");
+    let mut i = 0;
+    while i < 3 {
+        let b = out[i];
+        kani::assert((b >= b'0' && b <= b'9') || (b >= b'a' && b <= b'z'), "VERIF to_str_radix_reversed produced a byte outside [0-9a-z] (from_utf8_unchecked would be unsound)");
+        let dv = if b <= b'9' { b - b'0' } else { b - b'a' + 10 };
+        kani::assert(dv == unsafe { GH_D[i] }, "VERIF ASCII digit does not map back to the digit value");
+        i += 1;
+    }
+}
 
 // to_radix_le yields digits < radix for every radix 2..=36 (symbolic radix), hence to_str_radix_reversed yields only [0-9a-z];
 // narrow values (a full 64-bit digit means up to 64 divisions by a symbolic radix)
